@@ -546,6 +546,11 @@ func (g *Exec) stmt(sd int) []*Node {
 			blk := &Node{K: KBlock, Kids: g.block(sd-1, 3)}
 			blk.Kids = append(blk.Kids, ExprStmt(upd))
 			g.pop()
+			if g.R.IntN(3) == 0 {
+				// let i = 0; for (; i < N;) { body; i++ }    (test only)
+				g.declare(c)
+				return []*Node{Let(c.name, Num("0")), {K: KFor, Kids: []*Node{nil, Bin("<", Id(c.name), bound), nil, blk}}}
+			}
 			return []*Node{{K: KFor, Kids: []*Node{Let(c.name, Num("0")), Bin("<", Id(c.name), bound), nil, blk}}}
 		case shape == 3 && g.inFn > 0:
 			// let i = 0; for (;;) { if (i >= N) { return e } body; i++ }   (empty header, left by return)
@@ -554,6 +559,24 @@ func (g *Exec) stmt(sd int) []*Node {
 			blk := &Node{K: KBlock, Kids: append([]*Node{exit}, g.block(sd-1, 2)...)}
 			blk.Kids = append(blk.Kids, ExprStmt(upd))
 			return []*Node{Let(c.name, Num("0")), {K: KFor, Kids: []*Node{nil, nil, nil, blk}}}
+		case shape == 4 && g.inFn > 0:
+			// headers without a test, left by return: for (let i = 0;; i++) | let i = 0; for (;; i++) | for (let i = 0;;) { …; i++ }
+			kind := g.R.IntN(3)
+			if kind != 1 {
+				g.push()
+				defer g.pop()
+			}
+			g.declare(c)
+			exit := &Node{K: KIf, Kids: []*Node{Bin(">=", Id(c.name), bound), {K: KBlock, Kids: []*Node{{K: KReturn, Kids: []*Node{g.expr(g.retType[len(g.retType)-1], 1)}}}}}}
+			blk := &Node{K: KBlock, Kids: append([]*Node{exit}, g.block(sd-1, 2)...)}
+			switch kind {
+			case 0:
+				return []*Node{{K: KFor, Kids: []*Node{Let(c.name, Num("0")), nil, upd, blk}}}
+			case 1:
+				return []*Node{Let(c.name, Num("0")), {K: KFor, Kids: []*Node{nil, nil, upd, blk}}}
+			}
+			blk.Kids = append(blk.Kids, ExprStmt(upd))
+			return []*Node{{K: KFor, Kids: []*Node{Let(c.name, Num("0")), nil, nil, blk}}}
 		}
 		g.push()
 		g.declare(c)
